@@ -2331,6 +2331,7 @@ class ReShuffleDataset(Dataset):
         else:
             return self.__class__(
                 input_dataset=self.input_dataset.copy(freeze=freeze),
+                rng=self.rng,
             )
 
     @property
